@@ -403,7 +403,16 @@ def emit : Handler := fun req => do
         match (d.getObjValAs? String "name").toOption with
         | some n => if schemasJ.any (fun (k, _) => String.ofList (Oas3.Naming.toRustTypeName Oas3.Gen.prelude Oas3.Client.idTr k.toList) == n) || specEdges.any (fun e => specNameOf e.1 == n) then none else some n
         | none => none
+      -- today's generator marks the FIRST variant `#[default]`; a Default cycle through a union is the listed finding
+      -- only under that rule (the recursion is then a consequence of the member order the document chose)
+      let firstVariantIsDefault (rn : String) : Bool :=
+        match defs.find? (fun d => (d.getObjValAs? String "name").toOption == some rn && (d.getObjValAs? String "kind").toOption == some "enum") with
+        | some d => match (arr (fieldD d "variants" (Json.arr #[]))).toOption.getD [] with
+          | v :: rest => fieldD v "default" (Json.bool false) == Json.bool true && rest.all (fun w => fieldD w "default" (Json.bool false) != Json.bool true)
+          | [] => true
+        | none => true
       let classOf (rn : String) : String :=
+        if !firstVariantIsDefault rn then "" else
         let n := specNameOf rn
         -- a `disc` edge X→n makes n an allOf child of X (it inherits X's members)
         let ks := (specEdges.filter fun e => e.1 == n).map (·.2.1) ++ (if specEdges.any (fun e => e.2.1 == "disc" && e.2.2 == n) then ["allOf"] else [])
